@@ -104,8 +104,9 @@ def record(s, d, thorough):
     return FSM, files0, list(LOG.ops), dr, packed
 
 
-def collect(files0, ops, d):
-    """replay the op log: index captures (time, bytes) and data states (time, bytes, kind)"""
+def collect(files0, ops, d, mids=()):
+    """replay the op log: index captures (time, bytes) and data states (time, bytes, kind); `mids` = op positions at which
+    the data file is captured as it is then (inside commits, inside the pack)"""
     from zv.recfs import apply_op
     images = {k: bytearray(v) for k, v in files0.items()}
     dpath = os.path.join(d, 'Data.fs')
@@ -113,7 +114,10 @@ def collect(files0, ops, d):
     idx = []
     data = []
     packs = []
+    mid = []
     for k, op in enumerate(ops):
+        if k in mids and dpath in images and len(images[dpath]) >= 4:
+            mid.append((k, bytes(images[dpath]), 'mid'))
         if op[0] == 'mark':
             if op[1] == 'finish_ret':
                 data.append((k, bytes(images.get(dpath, b'')), 'boundary'))
@@ -126,7 +130,7 @@ def collect(files0, ops, d):
             if not idx or idx[-1][1] != b:
                 idx.append((k, b))
     data.append((len(ops), bytes(images.get(dpath, b'')), 'final'))
-    return idx, data, packs
+    return idx, data, packs, mid
 
 
 def put(scratch, data, index=None, extra=None):
@@ -231,7 +235,9 @@ def run_case(sh, s, tier, case):
     d = sh.fresh_dir('hist')
     scratch = os.path.join(sh.scratch, 'var')
     FSM, files0, ops, dr, packed = record(s, d, thorough)
-    idx, data, packs = collect(files0, ops, d)
+    mrnd = random.Random(s ^ 0x1d)
+    mids = set(mrnd.sample(range(len(ops)), min(len(ops), 6 if thorough else 2)))
+    idx, data, packs, mid = collect(files0, ops, d, mids)
     sh.count('index_saves_captured', len(idx))
     sh.count('histories_with_pack', 1 if packed else 0)
     for f in dr.features:
@@ -247,6 +253,9 @@ def run_case(sh, s, tier, case):
         for _ in range(2 if thorough else 1):
             cut = rnd.randrange(max(5, len(final) - 300), len(final))
             chosen.append((data[-1][0], final[:cut], 'torn'))
+    # crash states inside commits and inside the pack (the data file as it is at a random raw operation)
+    chosen.extend(mid)
+    sh.count('mid_operation_data_states', len(mid))
     for (dk, dbytes, dkind) in chosen:
         if not sh.time_left():
             break
